@@ -3,7 +3,8 @@
 # contracts (what they return is opaque here; bounded stand-in bounded/jobs_adapters.py compares the adapter with the list front end).
 
 classdef('pandas.DataFrame', ghost=dict(from_rows=List[List[Cell]], from_names=Opt[List[Str]]))
-classdef('rbql_pandas.DataframeIterator', fields=dict(table=Obj['pandas.DataFrame'], table_itertuples=Opaque))
+classdef('pandas.TupleIterator', ghost=dict(tuples=Seq[RecV], taken=Int))
+classdef('rbql_pandas.DataframeIterator', fields=dict(table=Obj['pandas.DataFrame'], table_itertuples=Obj['pandas.TupleIterator']))
 classdef('rbql_pandas.DataframeWriter', bases=['rbql_engine.RBQLOutputWriter'], fields=dict(header=Opt[List[Str]], output_rows=List[List[Cell]], result=Opt[Obj['pandas.DataFrame']]))
 classdef('rbql_pandas.SingleDataframeRegistry', bases=['rbql_engine.RBQLTableRegistry'], fields=dict(table=Obj['pandas.DataFrame'], normalize_column_names=Bool, table_name=Str))
 
@@ -108,3 +109,21 @@ def _(query_text: Str, input_dataframe: Obj['pandas.DataFrame'], output_warnings
     raises('SyntaxError', True, 'query_error')
     raises('AssertionError', True, 'query_error')
     modifies(anything())
+
+
+@trusted('builtins.next', trusted='A-DEP: next() on the itertuples(index=False) iterator of a frame hands out its rows in order (as tuples), then raises StopIteration for ever')
+def _(it: Obj['pandas.TupleIterator']) -> Seq[Cell]:
+    ensures(old(it.taken) < len(it.tuples) and result == it.tuples[old(it.taken)] and it.taken == old(it.taken) + 1 and it.tuples == old(it.tuples), 'next_row')
+    raises('StopIteration', old(it.taken) >= len(it.tuples) and it.taken == old(it.taken) and it.tuples == old(it.tuples), 'exhausted')
+    modifies(field(it, 'taken'))
+
+
+@contract('rbql_pandas.DataframeIterator.get_record', name='C13.pandas.iterator.get_record', props=['C13', 'C06'], store_policy='none')
+def _(self: Obj['rbql_pandas.DataframeIterator']) -> Opt[List[Cell]]:
+    # refinement of IF.iterator.get_record over the rows of the frame: the k-th pull hands out the k-th row as a NEW list and counts it, then None for ever
+    ensures(implies(old(self.table_itertuples.taken) < len(self.table_itertuples.tuples),
+                    not is_none(result) and is_fresh(opt_val(result)) and contents(opt_val(result)) == self.table_itertuples.tuples[old(self.table_itertuples.taken)]
+                    and self.table_itertuples.taken == old(self.table_itertuples.taken) + 1 and self.NR == old(self.NR) + 1), 'next')
+    ensures(implies(old(self.table_itertuples.taken) >= len(self.table_itertuples.tuples), is_none(result) and self.table_itertuples.taken == old(self.table_itertuples.taken) and self.NR == old(self.NR)), 'exhausted')
+    ensures(self.table_itertuples.tuples == old(self.table_itertuples.tuples) and same(self.table, old(self.table)), 'frame_only_read')
+    modifies(field(self, 'NR'), field(self.table_itertuples, 'taken'), fresh_only())
